@@ -37,7 +37,18 @@ from vlib.cond import Cond, enc_args
 import os
 
 NSAMPLES = int(os.environ.get('VERIF_SAMPLES', '3'))
-MAX_RECORDED = 6  # failing paths recorded per condition (distinct kind@site first)
+MAX_RECORDED = 6
+
+
+class _Space(StateSpace):
+    """CrossHair's search heuristics fork "in parallel" to try a *prematurely realised* copy of an
+    argument whenever earlier paths ended unknown/unsupported; for unbounded ints that branch enumerates
+    the integers and starves the symbolic branch.  Either branch alone is a complete exploration, so the
+    optional branch is never taken."""
+
+    def fork_parallel(self, false_probability, desc=""):
+        return False
+  # failing paths recorded per condition (distinct kind@site first)
 
 
 def explore(cond: Cond, timeout: float, seed: int = 0, classify=lambda f: None) -> dict:
@@ -60,7 +71,7 @@ def explore(cond: Cond, timeout: float, seed: int = 0, classify=lambda f: None) 
         if itr_start > deadline:
             break
         st["paths"] += 1
-        space = StateSpace(
+        space = _Space(
             execution_deadline=itr_start + per_path,
             model_check_timeout=per_path / 2,
             search_root=root,
